@@ -2,3 +2,5 @@ pub mod error;
 pub mod ext;
 pub mod io;
 pub mod option;
+#[cfg(hyeong_verif)]
+pub mod verif;
